@@ -394,3 +394,11 @@ Example C20_program_pseudo_example :
      settled_operands [("N", 5)]%string (exL 9) (resolved_fields [("N", 5)]%string fs) /\
      eligible_as [("N", 5)]%string (exL 9) name (resolved_fields [("N", 5)]%string fs) (CJr 1)).
 Proof. exact (conj ex20p_runs (conj ex20p_line3 (conj ex20p_line4 (conj ex20p_line5 (conj ex20p_line8 ex20p_line9))))). Qed.
+
+(* ---- Arithmetic.eval as the source has it (Gen/Guards.v): the expression text goes to the builtin eval as written, with no builtins and the
+   environment handed in; the POSITION of the item plays no part (so an arithmetic expression without labels is settled); every
+   exception becomes an AssemblerError at the line; the result must be an int *)
+From BB Require Gen.Guards Proofs.Guards.
+Theorem C20_arithmetic_eval_from_source : Proofs.Guards.arithmetic_eval_from_source_stmt.
+Proof. exact Proofs.Guards.arithmetic_eval_from_source. Qed.
+Print Assumptions C20_arithmetic_eval_from_source.
